@@ -1,0 +1,6 @@
+//go:build verif
+
+package strquote
+
+// VerifNeedsEscape exports needsEscape to the verification harness.
+func VerifNeedsEscape(b byte) bool { return needsEscape(b) }
